@@ -421,6 +421,7 @@ def DiscOKσ (c : Ctx) (nS pc ix : Nat) (slots astk : List Nat) (stack : List SB
   | .delegate es sg eg =>
     eg * 2 ≤ nS ∧ ∀ r, delegateOracle c es sg eg ix slots = some r → ∀ g, sg ≤ g → g < eg →
       r.slot (g * 2) = none ∨ (r.slot (g * 2 + 1)).isSome
+  | .restore slot => ∀ v, slots[slot]? = some v → v ≤ c.len
   | _ => True
 
 /-- **when the structured machine is defined**: at every instruction other than `End`, with slot
@@ -447,7 +448,8 @@ theorem C05_sstep_defined (c : Ctx) (prog : List Insn) (nS pc ix : Nat) (slots a
   | restore slot =>
     simp only [SlotsOK] at hs
     obtain ⟨v, hv⟩ := hget slot hs
-    simp only [hs, ↓reduceIte, hv]; rfl
+    have hvl : v ≤ c.len := hd v hv
+    simp only [hs, ↓reduceIte, hv, hvl]; rfl
   | repeatGr lo hi next rep =>
     simp only [SlotsOK] at hs
     obtain ⟨v, hv⟩ := hget rep hs
